@@ -11,17 +11,28 @@ proved on the regenerated tables; the real decision is made by actual `cargo che
 namespace Rtcm.C19
 open Rtcm.Features
 
-def msgFeatures : List String := (lookup Gen.cargoFeatures "all_msgs").getD []
+/-- the message-type features: the leaves of what `all_msgs` enables (group features such as a
+hypothetical `msm = [..]` are followed, not counted) -/
+def msgFeatures : List String := Features.msgFeatures Gen.cargoFeatures
+
+/-- what selecting exactly the feature `f` enables -/
+def sel (f : String) : FeatureSet := enables Gen.cargoFeatures [f]
+
+/-- the closure computations behind the statements below all ran to completion -/
+theorem closures_complete :
+    enablesComplete Gen.cargoFeatures ["all_msgs"] = true ∧
+    msgFeatures.all (fun f => enablesComplete Gen.cargoFeatures [f]) = true := by decide +kernel
 
 /-- for every single message feature, every module that an enabled module imports is enabled -/
 theorem single_feature_closed :
-    msgFeatures.all (fun f => closed Gen.moduleGates Gen.includeMsgs Gen.moduleUses [f]) = true := by
+    msgFeatures.all (fun f => closed Gen.moduleGates Gen.includeMsgs Gen.moduleUses (sel f)) = true := by
   decide +kernel
 
 /-- the empty selection compiles no module that imports a disabled one -/
 theorem empty_closed : closed Gen.moduleGates Gen.includeMsgs Gen.moduleUses [] = true := by decide +kernel
 
-theorem all_msgs_closed : closed Gen.moduleGates Gen.includeMsgs Gen.moduleUses msgFeatures = true := by
+theorem all_msgs_closed :
+    closed Gen.moduleGates Gen.includeMsgs Gen.moduleUses (sel "all_msgs") = true := by
   decide +kernel
 
 /-- gates mention only features that exist in Cargo.toml -/
@@ -30,17 +41,19 @@ theorem gates_mention_only_known_features :
     allFeaturesKnown Gen.cargoFeatures (Gen.includeMsgs.map (·.2)) = true ∧
     allFeaturesKnown Gen.cargoFeatures (Gen.dispatchRows.map (·.1)) = true := by decide +kernel
 
-/-- with only feature `f` the dispatch table supports exactly the number of `f` -/
+/-- with only the feature of a row selected the dispatch table supports exactly that row's number -/
 theorem dispatch_single :
-    Gen.dispatchRows.all (fun r => supported Gen.dispatchRows [r.1] == [r.2.2.2]) = true := by decide +kernel
+    Gen.dispatchRows.all (fun r => supported Gen.dispatchRows (sel r.1) == [r.2.2.2]) = true := by decide +kernel
 
-/-- every message feature is a dispatch row and vice versa; `std` is not implied by any message feature -/
+/-- every message feature is a dispatch row and vice versa (as sets, without repetition) -/
 theorem features_are_rows :
     (msgFeatures.length == Gen.dispatchRows.length && msgFeatures.all (Gen.dispatchRows.map (·.1)).contains &&
       (Gen.dispatchRows.map (·.1)).all msgFeatures.contains) = true := by decide +kernel
 
+/-- selecting a single message feature enables neither `std` nor another message feature -/
 theorem no_feature_implies_std :
-    msgFeatures.all (fun f => (lookup Gen.cargoFeatures f) == some []) = true := by decide +kernel
+    msgFeatures.all (fun f => !(sel f).contains "std" &&
+      ((sel f).filter msgFeatures.contains == [f])) = true := by decide +kernel
 
 -- (No theorem about `std::` paths: whether an unconditional use of std exists is decided by the real
 -- `cargo check --no-default-features` builds of the check; a syntactic scan would raise alarms on harmless
